@@ -43,7 +43,7 @@ PY
 )
 echo "$SUITE" | tee -a $LOG
 # 4. the check against the changed worktree
-/verif/bin/desynclint -property $PROP -repo $WT -no-evidence > /tmp/seedcheck.$$ 2>&1; CHECK=$?
+${LINT:-/verif/bin/desynclint} -property $PROP -repo $WT -no-evidence > /tmp/seedcheck.$$ 2>&1; CHECK=$?
 echo "check exit=$CHECK" | tee -a $LOG
 grep -E "violation rule=|UNDECIDED" /tmp/seedcheck.$$ | head -5 | cut -c1-400 | tee -a $LOG
 git checkout -q -- .
